@@ -142,15 +142,11 @@ def runScriptOld (self : Nat) : St → List Act → Option (St × List (Act × N
     let target : Option Nat := match a with
       | .cancel id => some id
       | .cancelSelf => some self
-      | .lookup _ => none
+      | _ => none
     if target = some self ∧ (find st.reqs self).isSome then none      -- destroys the running callable
     else
-      let (st1, ret) : St × Nat :=
-        match a with
-        | .lookup sid => lookup st sid
-        | .cancel id => let (s, b) := cancel st id; (s, if b then 1 else 0)
-        | .cancelSelf => let (s, b) := cancel st self; (s, if b then 1 else 0)
-      (runScriptOld self st1 as).map fun (st2, outs) => (st2, (a, ret) :: outs)
+      let r := doAct self st a
+      (runScriptOld self r.1 as).map fun (st2, outs) => (st2, (a, r.2) :: outs)
 
 def finishOld (st : St) (id : Nat) (r : Req) (res : Result) : Option (St × List Event) :=
   (runScriptOld id st r.script).map fun (st1, outs) =>
